@@ -65,6 +65,7 @@ type vfSinks struct {
 	mu    sync.Mutex
 	got   map[string][]string // probe id -> addresses (ip:port) that received it, in arrival order
 	udp   []*net.UDPConn
+	udpAt map[string]*net.UDPConn
 	tcp   []net.Listener
 	addrs []string
 }
@@ -94,6 +95,12 @@ func (s *vfSinks) listenUDP(addr string) error {
 		return err
 	}
 	s.udp = append(s.udp, c)
+	s.mu.Lock()
+	if s.udpAt == nil {
+		s.udpAt = map[string]*net.UDPConn{}
+	}
+	s.udpAt[addr] = c
+	s.mu.Unlock()
 	go func() {
 		b := make([]byte, 65536)
 		for {
@@ -105,6 +112,17 @@ func (s *vfSinks) listenUDP(addr string) error {
 		}
 	}()
 	return nil
+}
+
+// dropUDP closes the socket at addr (the backend there is down until listenUDP is called again).
+func (s *vfSinks) dropUDP(addr string) {
+	s.mu.Lock()
+	c := s.udpAt[addr]
+	delete(s.udpAt, addr)
+	s.mu.Unlock()
+	if c != nil {
+		c.Close()
+	}
 }
 
 func (s *vfSinks) listenTCP(addr string) error {
